@@ -86,7 +86,10 @@ class Weave:
             self.count("update")
             return ["update %s %s" % (v, self.snapshot())]
         self.count("gettrack")
-        return ["gettrack g%d %d" % (self.rng.randrange(3), self.rng.choice([0, 1, 2, 3, 4, 5, 7, -1]))]
+        g = "g%d" % self.rng.randrange(3)
+        if g not in self.tv:
+            self.tv.append(g)       # later setters / update / add_track go through the handle track_by_id returned
+        return ["gettrack %s %d" % (g, self.rng.choice([0, 1, 2, 2, 3, 3, 4, 5, 7, -1]))]
 
     def observer(self):
         rng = self.rng
@@ -143,6 +146,26 @@ class Weave:
                 out.extend(["lib1.dump", "lib1.bk"] + qs + qs + ["lib1.dump", "lib1.bk"])
         out.append("lib1.pragmas")
         return out
+
+
+def witness(schema, disk=False):
+    """A fixed short whole-library history, run on ALL eleven versions in every tier: every table family is written,
+    a track is removed while it is a member, the id after the removed highest track is asked for by track_by_id (the
+    placeholder row of the AUTOINCREMENT schemas, fix a5d64c8) and written through, a path collides, a stale handle is used."""
+    a = G.snap_txt(G.minimal(b"w/a.mp3"))
+    b = G.snap_txt(dict(G.minimal(b"w/b.x.flac"), title=b"B", rating=7, key=5, sample_count=441000, sample_rate=G.dbits(44100.0)))
+    obs = ["v1.obs 61 7a7a", "lib1.tobs", "lib1.dump"]
+    ops = ["mkroot c0 61", "mktrack t0 " + a, "mksub c1 c0 62", "addtrack c1 t0", "mktrack t1 " + b, "addtrack c0 t1",
+           "set t1 title s5469", "set t0 year 1999", "rmtrack t1", "set t1 title s58", "update t1 " + b, "addtrack c0 t1",
+           "gettrack g0 2", "set g0 title s5a", "set g0 rating 3", "addtrack c0 g0", "gettrack g1 3", "set g1 artist s41",
+           "mktrack t2 " + b, "mktrack t3 " + a, "rmtrack t2", "mktrack t4 " + b, "set t4 relative_path 772f612e6d7033",
+           "rmcrate c0", "rmtrack t0", "mktrack t5 " + a]
+    out = ["#mode lib1", "create %s %s" % (schema, "disk" if disk else "mem"), "lib1.mark", "lib1.dump"]
+    for l in ops:
+        out.append(l)
+        out.extend(obs)
+    out.append("lib1.pragmas")
+    return out
 
 
 def gen(rng, schema, tier, profile, nops, **kw):
@@ -394,6 +417,11 @@ def run_part(ctx, pid, plan, families, **kw):
                 meta.append(sch)
                 for a, b in h.items():
                     hist[a] = hist.get(a, 0) + b
+    if kw.get("witness", True):
+        for sch in SCHEMAS:
+            scripts.append(witness(sch, disk=kw.get("disk", False)))
+            meta.append(sch)
+            hist["witness"] = hist.get("witness", 0) + 1
     houts, mouts, invs, mems = execute(scripts, meta)
     divergences, violations = [], []
     outcomes, distinct, steps = {}, set(), 0
